@@ -161,6 +161,9 @@ def content_family(chk):
         trees.append([('file', 'W.sol', 'w', k), ('dir', 'd', [('file', 'B.sol', 'b')]), ('file', 'A.sol', 'a')])
         trees.append([('dir', 'd', [('file', 'W.sol', 'w', k), ('file', 'B.sol', 'b')]), ('file', 'A.sol', 'a')])
     trees.append([('file', 'W1.sol', 'w1', 'blank'), ('file', 'W2.sol', 'w2', 'blank'), ('file', 'A.sol', 'a')])
+    # eligible names that generic path helpers treat specially (no stem, two dots, a dot in front, upper-case stem)
+    for odd in ('.sol', '..sol', '.hidden.sol', 'a.b.sol', 'UPPER.sol', 'sp ace.sol', 'ünï.sol'):
+        trees.append([('file', odd, 'o'), ('dir', 'd', [('file', odd, 'o2'), ('file', 'A.sol', 'a')])])
     for k in ('leading blank lines', 'leading blanks and tabs', 'trailing blank lines'):
         trees.append([('file', 'P.sol', 'p', k), ('dir', 'd', [('file', 'Q.sol', 'q', k)])])
     for cat in dl.CATS:
